@@ -90,3 +90,5 @@ reg("C15", "lbseq", configs=("utf16",))
 reg("C20", "tiling", configs=("pattern",))
 reg("C20", "plumb", configs=("pattern",))
 reg("C14", "extra", fn="check_asciifold", configs=("utf16",))
+reg("C07", "arm")
+reg("C09", "sibpos", configs=("utf16",))
